@@ -98,3 +98,66 @@ pub proof fn lemma_roundtrip_u8(x: u8, r: core::result::Result<u8, Error>)
     ensures r == Ok::<u8, Error>(x),
 {
 }
+
+// ---- lists: the two generic contracts composed at concrete element types (lemmas in exec form: the element conversions are
+// reached through `call_ensures`, which only exists for exec calls).  Not code of the crate; the same obligations a caller has.
+//@lemma roundtrip.vec_i64 C17
+pub fn roundtrip_vec_i64(v: Vec<i64>) -> (r: core::result::Result<Vec<i64>, Error>)
+    ensures r is Ok && r->Ok_0@ == v@,
+{
+    let val = Value::from(v);
+    let r = Vec::<i64>::try_from(val);
+    proof { if r is Ok { assert(r->Ok_0@ =~= v@); } }
+    r
+}
+
+//@lemma roundtrip.vec_u8 C17
+pub fn roundtrip_vec_u8(v: Vec<u8>) -> (r: core::result::Result<Vec<u8>, Error>)
+    ensures r is Ok && r->Ok_0@ == v@,
+{
+    let val = Value::from(v);
+    let r = Vec::<u8>::try_from(val);
+    proof { if r is Ok { assert(r->Ok_0@ =~= v@); } }
+    r
+}
+
+//@lemma roundtrip.vec_bool C17
+pub fn roundtrip_vec_bool(v: Vec<bool>) -> (r: core::result::Result<Vec<bool>, Error>)
+    ensures r is Ok && r->Ok_0@ == v@,
+{
+    let val = Value::from(v);
+    let r = Vec::<bool>::try_from(val);
+    proof { if r is Ok { assert(r->Ok_0@ =~= v@); } }
+    r
+}
+
+//@lemma roundtrip.vec_string C17
+pub fn roundtrip_vec_string(v: Vec<String>) -> (r: core::result::Result<Vec<String>, Error>)
+    ensures r is Ok && r->Ok_0@ == v@,
+{
+    let val = Value::from(v);
+    let r = Vec::<String>::try_from(val);
+    proof { if r is Ok { assert(r->Ok_0@ =~= v@); } }
+    r
+}
+
+/// "extracting a list succeeds exactly when every element converts": a non-convertible element at any position refuses the list ...
+//@lemma try_vec.rejects_at C17
+pub fn vec_i64_rejects_at(list: Vec<Value>, p: usize) -> (r: core::result::Result<Vec<i64>, Error>)
+    requires p < list@.len(), !(list@[p as int] is Int) || !(i64::MIN <= list@[p as int]->Int_0 <= i64::MAX),
+    ensures r is Err,
+{
+    let ghost l = list@;
+    let r = Vec::<i64>::try_from(Value::Vec(list));
+    proof { if r is Ok { assert(call_ensures(<i64 as TryFrom<Value>>::try_from, (l[p as int],), Ok::<i64, Error>(r->Ok_0@[p as int]))); } }
+    r
+}
+
+/// ... and a list of convertible elements is accepted, element for element
+//@lemma try_vec.accepts_all C17
+pub fn vec_i64_accepts_all(list: Vec<Value>) -> (r: core::result::Result<Vec<i64>, Error>)
+    requires forall|i: int| 0 <= i < list@.len() ==> (#[trigger] list@[i]) is Int && i64::MIN <= list@[i]->Int_0 <= i64::MAX,
+    ensures r is Ok && r->Ok_0@.len() == list@.len() && (forall|i: int| 0 <= i < list@.len() ==> (#[trigger] r->Ok_0@[i]) as i128 == list@[i]->Int_0),
+{
+    Vec::<i64>::try_from(Value::Vec(list))
+}
